@@ -555,3 +555,30 @@ Example C13_responses_do_not_share_buffers_nonvacuous :
   exists rs, run_sched (map rd_init two_conns) [(0, 3); (1, 8); (1, 8); (0, 8); (1, 8); (0, 8)]%nat = Ok rs /\
              map rd_data rs = [bs "AAAAAAAA"; bs "BBBBbb"] /\ map rd_err rs = [Some REOF; Some REOF].
 Proof. exact two_conns_witness. Qed.
+
+(* ---------- sequences of requests ---------- *)
+
+(* EVERY sequence of requests, EVERY position in it: whatever was sent before and after — other sites, other
+   rules, bodies of any size — a conforming responder receives for the i-th request role Responder, flags 0,
+   exactly its pairs and exactly its body bytes: no byte of another request, no left-over of an earlier one.
+   (The `after` cases hold the implementation to this when the earlier request failed part-way.) *)
+Theorem C13_request_exact_in_any_sequence :
+  forall reqs i ps order body w,
+  nth_error reqs i = Some (order, body) ->
+  (forall kv, In kv ps -> fits kv = true) ->
+  Permutation ps order ->
+  nth_error (sequence_wires reqs) i = Some (Ok w) ->
+  exists got, responder_receive w = Some (1, 0, got, body_bytes body) /\ Permutation ps got.
+Proof. exact request_roundtrip_in_any_sequence. Qed.
+Print Assumptions C13_request_exact_in_any_sequence.
+
+(* the bytes of a request do not depend on its neighbours *)
+Theorem C13_sequence_wire_is_the_solo_wire : forall before q after,
+  nth_error (sequence_wires (before ++ q :: after)) (length before) = Some (request_wire (fst q) (snd q)).
+Proof. exact sequence_wires_pointwise. Qed.
+Print Assumptions C13_sequence_wire_is_the_solo_wire.
+
+Example C13_request_exact_in_any_sequence_nonvacuous :
+  exists w, nth_error (sequence_wires [([(bs "A", bs "1")], Some (bs "first body")); ([(bs "SCRIPT_NAME", bs "/x.php")], None)]) 1 = Some (Ok w) /\
+            responder_receive w = Some (1, 0, [(bs "SCRIPT_NAME", bs "/x.php")], []).
+Proof. eexists. split; vm_compute; reflexivity. Qed.
